@@ -16,10 +16,11 @@ Transcribed, in the order of the Python:
   after `rows·(cols+1)` steps it never ends — `XErr.hang`), the 3-D matching locations, the
   `connected_planes` sets, `find_connected_components`, the projection loops
   (`possible_correction[…][idx] += 1`, `qubit_index` look-up), `get_toric_loop`, `decode_plane`
-  (always called with `(Lx, Ly)`, as in the Python), the loop scatter
-  (`possible_correction[…][idx] = 1`, the `qubit_index` look-up that raises on lattices that are not
-  `Lx ≤ Ly ≤ Lz`), the minimum-weight choice, the restored syndrome, the BP-OSD call and
-  `(correction + z_correction.astype('uint8')) % 2`.
+  called with the two sizes of the projected plane (`tuple_remove((Lx, Ly, Lz), proj_axis_int)`,
+  since 869642d; before that commit it was always called with `(Lx, Ly)` and the loop scatter raised
+  `KeyError` on lattices that are not `Lx ≤ Ly ≤ Lz` — that variant is kept as `XCubeDec.old`), the
+  loop scatter (`possible_correction[…][idx] = 1`, `qubit_index` look-up), the minimum-weight
+  choice, the restored syndrome, the BP-OSD call and `(correction + z_correction.astype('uint8')) % 2`.
 
 Third-party solvers are parameters (`WSolver`, `BpSolver` of `Model/Decoders.lean`).  Python sets:
 a set is a duplicate-free list; every use in the decoder is order-free (membership, counting)
@@ -205,12 +206,20 @@ structure XCubeDec (W : Type) where
   matching : Per (MatchingDec W)
   /-- `self.z_decoder` -/
   zdec : BpDec_dec
+  /-- the two lattice sizes `decode` hands to `decode_plane` for a projection axis (not an attribute
+      of the Python object: it is computed in `decode` from `code.size`; kept here so that the code
+      before and after 869642d are the same functions of the object, see `XCubeDec.old`) -/
+  planeSizes : Axis → Nat × Nat
 
 def XCubeDec.n {W : Type} (d : XCubeDec W) : Nat := d.qubits.length
 
 /-- `[Lx, Ly, Lz][proj_axis_int]` -/
 def XCubeDec.side {W : Type} (d : XCubeDec W) : Axis → Nat
   | .x => d.Lx | .y => d.Ly | .z => d.Lz
+
+/-- `tuple_remove((Lx, Ly, Lz), proj_axis_int)` -/
+def planeSizesOf (Lx Ly Lz : Nat) : Axis → Nat × Nat
+  | .x => (Ly, Lz) | .y => (Lx, Lz) | .z => (Lx, Ly)
 
 /-- `[wxy if toric.qubit_axis(loc) == 'x' else wz for loc in toric.qubit_coordinates]`
     (`ValueError` of `qubit_axis` on a non-qubit location kept) -/
@@ -271,7 +280,13 @@ def XCubeDec.new {W : Type} (logOdds : Rat → W) (Lx Ly Lz : Nat) (deformAxis :
   | .ok mz =>
   .ok { Lx := Lx, Ly := Ly, Lz := Lz, qubits := c.qubits, stabs := c.stabs, H := H,
         toric := ⟨tx, ty, tz⟩, matching := ⟨mx, my, mz⟩,
-        zdec := { H := H, n := c.qubits.length, px := px, py := py, pz := pz, cfg := cfg } }
+        zdec := { H := H, n := c.qubits.length, px := px, py := py, pz := pz, cfg := cfg },
+        planeSizes := planeSizesOf Lx Ly Lz }
+
+/-- the decoder as it was before 869642d: `decode_plane(toric_loop, (Lx, Ly))` whatever the
+    projection axis -/
+def XCubeDec.old {W : Type} (d : XCubeDec W) : XCubeDec W :=
+  { d with planeSizes := fun _ => (d.Lx, d.Ly) }
 
 /-! ### `get_matched_pairs` -/
 
@@ -513,7 +528,7 @@ def loopsAll {W : Type} (d : XCubeDec W) (proj : Axis) (comps : List (List Int))
   forM' comps pc fun pc comp =>
     let tl := toricLoop ortho comp proj.toNat
     Out.bind (note (.loop proj tl)) fun _ =>
-    Out.bind (decodePlane tl d.Lx d.Ly) fun coords =>
+    Out.bind (decodePlane tl (d.planeSizes proj).1 (d.planeSizes proj).2) fun coords =>
     Out.bind (note (.coords proj coords)) fun _ =>
     loopScatter d proj (comp.headD 0) coords pc
 
